@@ -120,6 +120,14 @@ pub const NUMBERS: &[f64] = &[
     123456789012345.67,
     -1e-300,
     1.5e300,
+    // halves just below 2^53, 16 significant digits ending in 5, a negative subnormal
+    4503599627370496.5,
+    6755399441055743.5,
+    9007199254740991.0,
+    0.1234567890123455,
+    1.000000000000005,
+    -5e-324,
+    2.5e-323,
 ];
 
 pub const UNITS: &[&str] = &["kW", "°F", "%", "$", "m²", "kWh/m²", "gH₂O/kgAir", "W/ft²_irr", "Δ°C", "µs", "R$", "Ω", "inHg", "ft²"];
@@ -192,11 +200,63 @@ pub fn numbers() -> Vec<V> {
         v.push(V::num(x));
     }
     for &u in UNITS {
-        for &x in &[0.0, -0.0, 1.0, -1.0, 0.5, 1e-7, 123456789.125, 1e21, 5e-324, -2.5e-3, 100.0] {
+        for &x in &[0.0, -0.0, 1.0, -1.0, 0.5, 1e-7, 123456789.125, 1e21, 5e-324, -5e-324, -2.5e-3, 100.0, 4503599627370496.5] {
             v.push(V::numu(x, u));
         }
     }
     v
+}
+
+/// Doubles chosen by the SHAPE of their decimal text rather than by value: every digit count
+/// 1..=17 x every position of the decimal point (incl. "0.ddd" and trailing zeros) x several digit
+/// patterns (all nines, 1 0..0 1, 97333.., 2^53 neighbours, 1234567.., all fives, 7 2 3 0..), and
+/// single-precision readings widened to f64. The value is what a correct parser makes of the text.
+pub fn digit_shape_numbers() -> Vec<f64> {
+    let mut out: Vec<f64> = vec![];
+    let mut seen = std::collections::HashSet::new();
+    let mut push = |x: f64, out: &mut Vec<f64>| {
+        if x.is_finite() && seen.insert(x.to_bits()) {
+            out.push(x);
+        }
+    };
+    let patterns: [&dyn Fn(usize) -> String; 7] = [
+        &|d| "9".repeat(d),
+        &|d| if d < 2 { "1".into() } else { format!("1{}1", "0".repeat(d - 2)) },
+        &|d| if d < 2 { "9".into() } else { format!("97{}", "3".repeat(d - 2)) },
+        &|d| "90071992547409931".chars().take(d).collect(),
+        &|d| "12345678901234567".chars().take(d).collect(),
+        &|d| "5".repeat(d),
+        &|d| if d < 3 { "7".repeat(d) } else { format!("723{}1", "0".repeat(d.saturating_sub(4))).chars().take(d).collect() },
+    ];
+    for d in 1..=17usize {
+        for pat in patterns.iter() {
+            let digits = pat(d);
+            for p in 0..=d {
+                let text = if p == 0 { format!("0.{digits}") } else if p == d { digits.clone() } else { format!("{}.{}", &digits[..p], &digits[p..]) };
+                if let Ok(x) = text.parse::<f64>() {
+                    push(x, &mut out);
+                    push(-x, &mut out);
+                }
+            }
+            // small and large by exponent
+            for e in [-9i32, -3, 3, 25] {
+                if let Ok(x) = format!("{}.{}e{e}", &digits[..1], &digits[1..].to_string()).replace(".e", "e").parse::<f64>() {
+                    push(x, &mut out);
+                }
+            }
+        }
+    }
+    for lit in [72.3f32, 0.1, 101.325, 12.7, 98.6, 3.14159, 1e-3, 0.3, 21.1, 1234.56, 0.05, 99.9, 1e10, 16777217.0, 1.1754944e-38, 3.4028235e38, 7.0e-4, 45.67] {
+        push(lit as f64, &mut out);
+        push(-(lit as f64), &mut out);
+        push((1.0f32 / lit) as f64, &mut out);
+    }
+    for n in [3.0f64, 7.0, 9.0, 11.0, 13.0] {
+        for k in [1.0f64, 10.0, 292.0, 700.0, 1e6] {
+            push(k / n, &mut out);
+        }
+    }
+    out
 }
 
 pub fn datetimes() -> Vec<V> {
@@ -254,6 +314,36 @@ pub fn scalars(tier: Tier) -> Vec<V> {
     for (a, b) in [(90.0, 180.0), (-90.0, -180.0), (90.0, -180.0), (-90.0, 180.0)] {
         v.push(V::Coord(a, b));
     }
+    v.extend(digit_shape_values());
+    v
+}
+
+/// Numbers (bare, with "kW", with a rotating unit) and coordinates chosen by the shape of their
+/// decimal text (see digit_shape_numbers); part of Σ.
+pub fn digit_shape_values() -> Vec<V> {
+    let mut v = vec![];
+    let nums = digit_shape_numbers();
+    for (i, &x) in nums.iter().enumerate() {
+        v.push(V::num(x));
+        v.push(V::numu(x, "kW"));
+        v.push(V::numu(x, UNITS[i % UNITS.len()]));
+    }
+    let shaped: Vec<f64> = nums.into_iter().filter(|x| x.abs() <= 180.0).collect();
+    for (i, &x) in shaped.iter().enumerate() {
+        let other = shaped[(i * 7 + 3) % shaped.len()];
+        if x.abs() <= 90.0 {
+            v.push(V::Coord(x, if other.abs() <= 180.0 { other } else { 0.0 }));
+        }
+        v.push(V::Coord(if other.abs() <= 90.0 { other } else { 1.5 }, x));
+    }
+    v
+}
+
+/// Σ without the digit-shape family (for stages that explore several deviations per value)
+pub fn scalars_classic(tier: Tier) -> Vec<V> {
+    let n = digit_shape_values().len();
+    let mut v = scalars(tier);
+    v.truncate(v.len() - n);
     v
 }
 
